@@ -176,7 +176,9 @@ func readUnified(r *diffReader) error {
 // readUnifiedHeader reads a unified diff header from r.
 func readUnifiedHeader(r *diffReader) error {
 	lline, err := r.readline()
-	if err != nil {
+	if err == io.EOF {
+		return nil // empty input: no header and no chunks (what Unified writes for an empty diff)
+	} else if err != nil {
 		return err
 	}
 	lhs, ok := strings.CutPrefix(lline, "--- ")
